@@ -44,6 +44,9 @@ pub fn c04(ctx: &mut Ctx) {
         oracle: Oracle::Judge,
     };
     sweep::run(ctx, &mut real, &sw);
+    let names = scalar_names(&real.names());
+    let lg = Sweep { names, alpha: Alpha::large(), reduced: Alpha::large(), cap_per_instr: 20_000, missing: false, only_missing: false, populated_too: false, oracle: Oracle::Judge };
+    sweep::run(ctx, &mut real, &lg);
 }
 
 pub fn c09(ctx: &mut Ctx) {
@@ -63,8 +66,27 @@ pub fn c09(ctx: &mut Ctx) {
     reduced.fvs = crate::alpha::fvs_pool(2);
     reduced.floats = vec![-2.5, 0.0, 0.5, f32::INFINITY, f32::NAN];
     reduced.ints = vec![IMIN, -2, -1, 0, 1, 2, 3, IMAX];
-    let sw = Sweep { names, alpha, reduced, cap_per_instr: if ctx.tier_thorough { 2_000_000 } else { 40_000 }, missing: false, only_missing: false, populated_too: false, oracle: Oracle::Judge };
+    let sw = Sweep { names: names.clone(), alpha: alpha.clone(), reduced, cap_per_instr: if ctx.tier_thorough { 2_000_000 } else { 40_000 }, missing: false, only_missing: false, populated_too: false, oracle: Oracle::Judge };
     sweep::run(ctx, &mut real, &sw);
+    // length ladder: a few long vectors (not exhaustive in the large, but every pair of the ladder and every
+    // offset around their lengths): chunked or fixed-size processing shows here, not in vectors of length 3
+    let lens: &[usize] = if ctx.tier_thorough { &[6, 7, 8, 9, 15, 16, 17, 31, 32, 33, 64, 65] } else { &[6, 7, 8, 9, 16, 17, 33] };
+    let mut ladder = alpha.clone();
+    ladder.bvs = lens.iter().flat_map(|n| vec![(0..*n).map(|k| k % 3 == 0).collect::<Vec<bool>>(), (0..*n).map(|k| k % 2 == 1 || k == n - 1).collect()]).collect();
+    ladder.ivs = lens.iter().flat_map(|n| vec![(0..*n).map(|k| 100 + 7 * k as i32).collect::<Vec<i32>>(), (0..*n).map(|k| if k % 5 == 0 { 0 } else { (k as i32) - 3 }).collect()]).collect();
+    ladder.fvs = lens.iter().flat_map(|n| vec![(0..*n).map(|k| 1.5 + k as f32).collect::<Vec<f32>>(), (0..*n).map(|k| if k % 5 == 0 { 0.0 } else { (k as f32) - 3.5 }).collect()]).collect();
+    // descending ramps with one NaN (sorting long vectors switches algorithm) and with an infinity
+    for n in [21usize, 24, 33, 70] {
+        ladder.fvs.push((0..n).map(|k| if k == 4 { f32::NAN } else { (n - k) as f32 }).collect());
+        ladder.fvs.push((0..n).map(|k| if k == n / 2 { f32::INFINITY } else if k % 7 == 3 { f32::NAN } else { ((k * 37) % n) as f32 }).collect());
+        ladder.ivs.push((0..n).map(|k| ((k * 37) % n) as i32 - 5).collect());
+        ladder.bvs.push((0..n).map(|k| (k * 37) % 5 < 2).collect());
+    }
+    ladder.ints = vec![IMIN, -33, -17, -9, -8, -7, -1, 0, 1, 5, 7, 8, 9, 16, 17, 32, 33, IMAX];
+    ladder.floats = vec![0.0, 0.5, -2.5];
+    ladder.bools = vec![true, false];
+    let sw2 = Sweep { names, alpha: ladder.clone(), reduced: ladder, cap_per_instr: usize::MAX, missing: false, only_missing: false, populated_too: false, oracle: Oracle::Judge };
+    sweep::run(ctx, &mut real, &sw2);
 }
 
 pub fn c10(ctx: &mut Ctx) {
@@ -87,6 +109,9 @@ pub fn c10(ctx: &mut Ctx) {
                 oracle: Oracle::Confine,
             };
             sweep::run(ctx, &mut real, &sw);
+            let names = real.names();
+            let lg = Sweep { names, alpha: Alpha::large(), reduced: Alpha::large(), cap_per_instr: if ctx.tier_thorough { 20_000 } else { 3_000 }, missing: false, only_missing: false, populated_too: false, oracle: Oracle::Confine };
+            sweep::run(ctx, &mut real, &lg);
         }
         f => panic!("unknown family {}", f),
     }
@@ -106,6 +131,10 @@ pub fn c01_step(ctx: &mut Ctx) {
         oracle: Oracle::NoPanic,
     };
     sweep::run(ctx, &mut real, &sw);
+    // the large-instance alphabet (few values, each of them big)
+    let names = real.names();
+    let lg = Sweep { names, alpha: Alpha::large(), reduced: Alpha::large(), cap_per_instr: if ctx.tier_thorough { 20_000 } else { 3_000 }, missing: false, only_missing: false, populated_too: false, oracle: Oracle::NoPanic };
+    sweep::run(ctx, &mut real, &lg);
 }
 
 // ---------------------------------------------------------------------------
@@ -192,7 +221,7 @@ fn position_map(op: &str, n: usize, idx: Option<i32>) -> Option<Vec<usize>> {
 
 pub fn c05(ctx: &mut Ctx) {
     let mut real = Real::new();
-    let maxd = if ctx.tier_thorough { 10 } else { 5 };
+    let maxd = if ctx.tier_thorough { 14 } else { 9 };
     let ops = ["DUP", "POP", "SWAP", "ROT", "YANK", "YANKDUP", "SHOVE", "FLUSH", "STACKDEPTH"];
     for (prefix, t, _) in STACK_TYPES.iter() {
         for op in ops.iter() {
@@ -210,6 +239,9 @@ pub fn c05(ctx: &mut Ctx) {
                     for i in -2..=(depth as i32 + 1) {
                         idxs.push(Some(i));
                     }
+                    // beyond the depth by more than one, and in the middle of the range of a 32-bit index
+                    idxs.push(Some(depth as i32 + 7));
+                    idxs.push(Some(65_536));
                 }
                 for idx in idxs {
                     for below in [false, true] {
